@@ -9,7 +9,14 @@ use serde_json::Value;
 /// every row filled with distinct letters (so rows are soft-wrapped into each other)
 fn seed(cfg: &Cfg) -> Vec<Cmd> {
     let n = cfg.cols * cfg.rows;
-    let s: String = (0..n).map(|i| char::from_u32('a' as u32 + (i % 26) as u32).unwrap()).collect();
+    // letters, with a double-width and a Latin-1 character mixed in
+    let s: String = (0..n)
+        .map(|i| match i % 5 {
+            1 => '漢',
+            3 => 'é',
+            _ => char::from_u32('a' as u32 + (i % 26) as u32).unwrap(),
+        })
+        .collect();
     vec![Text(s), Cup(Some(1), Some(1))]
 }
 
@@ -33,6 +40,8 @@ fn alpha(cfg: &Cfg) -> Vec<Op> {
     v.push(c(Decaln));
     // setup
     v.push(t("x"));
+    v.push(t("漢"));
+    v.push(t("E"));
     v.push(Op::text(&"w".repeat(cfg.cols)));
     for r in 1..=rows {
         for cc in 1..=cols {
